@@ -184,6 +184,20 @@ WriteAttachment(w, a) ==
   [Emit(w, r) EXCEPT !.attIdx = Append(@, [offset |-> w.pos, length |-> r.len, log |-> a.log, create |-> a.create,
                                            dsize |-> a.dsize, name |-> a.name, media |-> a.media]),
                      !.stats.atts = @ + 1]
+(* WriteAttachment with a data source that misbehaves (C14): as coded, the 9-byte prefix and the fields are written first,
+   then the source is copied in 32 KiB pieces through the CRC writer; a failing source, or a byte count that differs from
+   the declared size, ends the call with an error AFTER whatever the source delivered has reached the destination - no
+   CRC, no index entry, no count.  kind: "short" (k bytes missing), "long" (k bytes too many), "fail" (error after k bytes) *)
+SrcDelivered(a, kind, k) ==
+  CASE kind = "short" -> IF a.dsize >= k THEN a.dsize - k ELSE 0
+    [] kind = "long"  -> a.dsize + k
+    [] OTHER          -> k
+WriteAttachmentSrc(w, a, kind, k) ==
+  LET r == MkAttachment(w.pos, a)
+      d == SrcDelivered(a, kind, k)
+      hdr == r.len - a.dsize - 4 IN
+  [w EXCEPT !.pos = @ + hdr + d, !.nw = @ + 2 + (d + 32767) \div 32768]
+
 WriteMetadata(w, m) ==
   LET r == MkMetadata(w.pos, m) IN
   [Emit(w, r) EXCEPT !.mdIdx = Append(@, [offset |-> w.pos, length |-> r.len, name |-> m.name]), !.stats.mds = @ + 1]
